@@ -92,6 +92,11 @@ def run_index(ctx, case):
         want = M @ psi
         scale = max(1.0, np.abs(op).max() * 2 ** len(targets))
         form = (case['prng'] + rep) % 4
+        # same values in other memory layouts (a slice of a larger register, a transposed gate matrix, read-only arrays)
+        lay_s, lay_o = ['C', 'strided', 'readonly'][(case['prng'] // 4 + rep) % 3], ref.LAYOUTS[(case['prng'] // 12 + rep) % len(ref.LAYOUTS)]
+        ctx.label('state layout=' + lay_s, 'op layout=' + lay_o)
+        op = ref.with_layout(op, lay_o)
+        op_before = op.copy()
         if len(controls) == 0:
             if form == 0:
                 idx = targets
@@ -101,17 +106,21 @@ def run_index(ctx, case):
                 idx = targets[0] if len(targets) == 1 else tuple(int(x) for x in targets)
             else:
                 idx = np.array(targets)
-            got = nq.sim.state.apply_gate(psi.copy(), op, idx)
+            psi_in = ref.with_layout(psi, lay_s)
+            got = nq.sim.state.apply_gate(psi_in, op, idx)
             ctx.close(got, want, 1e-10, 'apply_gate = embedded operator', scale)
+            ctx.close(psi_in, psi, 0, 'input state not modified')
+            ctx.close(op, op_before, 0, 'gate matrix not modified')
         if len(controls) > 0 or rep == 0:
             if len(controls) == 0:
                 continue
             cform = [set(controls), tuple(controls), list(controls)[::-1], (controls[0] if len(controls) == 1 else set(controls))][form]
             tform = targets if form % 2 == 0 else (targets[0] if len(targets) == 1 else list(targets))
-            psi_in = psi.copy()
+            psi_in = ref.with_layout(psi, lay_s)
             got = nq.sim.state.apply_control_n_gate(psi_in, op, cform, tform)
             ctx.close(got, want, 1e-10, 'apply_control_n_gate = operator on the all-ones control subspace', scale)
             ctx.close(psi_in, psi, 0, 'input state not modified')
+            ctx.close(op, op_before, 0, 'gate matrix not modified')
         ctx.tick()
 
 
@@ -144,10 +153,15 @@ def run_dm(ctx, case):
             idx = targets
         else:
             idx = targets[0] if len(targets) == 1 else targets
-        got = nq.sim.dm.apply_gate(rho.copy(), op, idx)
+        lay_r, lay_o = ref.LAYOUTS[(case['prng'] // 3 + rep) % len(ref.LAYOUTS)], ref.LAYOUTS[(case['prng'] // 12 + rep) % len(ref.LAYOUTS)]
+        ctx.label('dm layout=' + lay_r, 'op layout=' + lay_o)
+        rho_in, op_in = ref.with_layout(rho, lay_r), ref.with_layout(op, lay_o)
+        got = nq.sim.dm.apply_gate(rho_in, op_in, idx)
         ctx.close(got, M @ rho @ M.conj().T, 1e-10, 'dm.apply_gate = U rho U^dagger', scale)
-        e = nq.sim.dm.operator_expectation(rho, op, idx)
+        e = nq.sim.dm.operator_expectation(rho_in, op_in, idx)
         ctx.close(e, np.trace(rho @ M), 1e-10, 'operator_expectation = Tr(rho O)', scale)
+        ctx.close(rho_in, rho, 0, 'density matrix not modified')
+        ctx.close(op_in, op, 0, 'gate matrix not modified')
         ctx.tick()
 
 
